@@ -3,7 +3,7 @@
 Space: G_scope programs of the tier (plus G_feat singles) x option sets {rename_locals}, {rename_locals, rename_globals},
 {rename_locals, hoist_literals}, {all three} x preserve specification: every subset (size <= 2, and the full set) of the names that the
 same call WITHOUT a preserve list would respell, passed as preserve_locals list / preserve_globals list / both / a single string;
-a literal __all__ in four spellings (plain list, augmented +=, annotated, with non-string entries) for module-level names; and
+a literal __all__ in seven spellings (plain list, augmented +=, annotated, with non-string entries, chained assignment with __all__ first / last, rebound) for module-level names; and
 awslambda(entrypoint=name|None).
 Oracle: every binding site and reference whose input binding is function-level and listed in preserve_locals, or module-level and listed in
 preserve_globals / __all__ / the entrypoint, keeps its spelling; the C03 bijection still holds (no other binding takes that spelling where
@@ -65,6 +65,10 @@ ALL_FORMS = [
     ('all-aug', "__all__=[]\n__all__+=[{names}]\n"),
     ('all-ann', "__all__:list=[{names}]\n"),
     ('all-mixed', "__all__=[{names},1,None]\n"),
+    # chained assignments (the __all__ target first / last) and a list that replaces an earlier one
+    ('all-chained-last', "exported_=__all__=[{names}]\n"),
+    ('all-chained-first', "__all__=exported_=[{names}]\n"),
+    ('all-rebound', "__all__=[]\n__all__=[{names}]\n"),
 ]
 
 
